@@ -9,6 +9,7 @@ from collections import Counter, defaultdict
 
 from ..shadow import TOL, PERSIST
 from .fleet import FleetOracle
+from .conveyor import ConveyorOracle
 
 NODE_TYPES = {"Source": "source", "Machine": "machine", "Splitter": "splitter", "Combiner": "combiner", "Sink": "sink"}
 
@@ -132,6 +133,7 @@ class FactoryOracle:
         self.edge_idx_out = {}     # id(edge) -> index in src.out_edges
         self.edge_idx_in = {}
         self.fleet_oracles = []
+        self.conv_oracles = []
         self.slice_no = 0
         self.events = []           # compact event log (for samples / C19)
         self.finished = False
@@ -151,6 +153,13 @@ class FactoryOracle:
             sh = mon.label(store, f"{eid}:{edge._spec['type']}", edge)
             if edge._spec["type"] == "fleet":
                 self.fleet_oracles.append(FleetOracle(mon, sh, edge._spec["capacity"], edge._spec["delay"], edge._spec["transit"]))
+            elif edge._spec["type"] == "conv":
+                sp = edge._spec
+                self.conv_oracles.append(ConveyorOracle(mon, sh, sp["L"] / sp["speed"], sp["item_length"] / sp["speed"],
+                                                        int(round(sp["L"] / sp["item_length"])), sp["acc"], False))
+            elif edge._spec["type"] == "slotconv":
+                sp = edge._spec
+                self.conv_oracles.append(ConveyorOracle(mon, sh, sp["capacity"] * sp["delay"], sp["delay"], sp["capacity"], sp["acc"], True))
         for node in model.nodes.values():
             for i, e in enumerate(node.out_edges or []):
                 self.edge_idx_out[id(e)] = i
@@ -461,11 +470,11 @@ class FactoryOracle:
                 perm = [ (len(L.first_tries_out)) % len(outs) ] if outs else []
                 return
             # weaker form: dropped => at least one out-edge without room
-            if all(self._free(e) > 0 for e in outs) and outs:
+            if all(self._admits(e) for e in outs) and outs:
                 self.mon.violation("C09", "dropped_despite_room", f"{L.type}:non-blocking-node-dropped-although-every-out-edge-had-room",
                                    {"node": L.id, "item": sx.iid})
             return
-        room = [i for i in perm if 0 <= i < len(outs) and self._free(outs[i]) > 0]
+        room = [i for i in perm if 0 <= i < len(outs) and self._admits(outs[i])]
         if room:
             self.mon.violation("C09", "dropped_despite_room", f"{L.type}:non-blocking-node-dropped-although-permitted-out-edge-had-room",
                                {"node": L.id, "item": sx.iid, "edges_with_room": room, "policy": repr(L.node._spec.get("out_sel"))[:40]})
@@ -476,6 +485,12 @@ class FactoryOracle:
             store = edge.belt
         sh = self.mon.shadow(store)
         return sh.free()
+
+    def _admits(self, edge):
+        store = getattr(edge, "inbuiltstore", None)
+        if store is None:
+            store = edge.belt
+        return self.mon.shadow(store).admits_now()
 
     def _avail(self, edge):
         store = getattr(edge, "inbuiltstore", None)
@@ -931,6 +946,8 @@ class FactoryOracle:
         T = self.spec["T"]
         for fo in self.fleet_oracles:
             fo.finish(now)
+        for co in self.conv_oracles:
+            co.finish(now)
         crashed = exc is not None
         self.crashed = crashed
         if crashed:
@@ -1337,7 +1354,8 @@ class FactoryOracle:
             "C09": n_disc >= 1 or blocked >= 1,
             "C10": blocked >= 1 and n_recv >= 10,
             "C11": c["c11_node_can_put_checked"] >= 5 or c["c11_delay_draws_checked"] >= 10,
-            "C12": any(e._spec["type"] in ("conv", "slotconv") for e in self.m.edges.values()) and n_recv >= 8,
+            "C12": any(getattr(co, "nontrivial12", False) or (len(co.items) >= 8 and getattr(co, "n_exact", 0) >= 4) for co in self.conv_oracles),
+            "C13": any(getattr(co, "nontrivial13", False) for co in self.conv_oracles),
             "C14": any(getattr(fo, "nontrivial", False) for fo in self.fleet_oracles),
             "C15": pol,
             "C16": c["c16_pallets_checked"] >= 3,
